@@ -131,6 +131,29 @@ pub fn run(tier: Tier, seed: u64) -> i32 {
                 Ok(_) => fail("C01:compile-accepts-too-small-srs", json!({"degree": s_min / 2})),
             }
         }
+        // capacities just below the minimal admitting one: whatever compiles
+        // must also prove and verify (the statement's premise is "compiles
+        // against the supplied parameters")
+        if s_min >= 16 {
+            let short_by = 1 + (ci as usize + seed as usize) % 7;
+            let near = crate::util::pp(s_min - short_by);
+            match common::compile(&near, &label, &prog) {
+                Err(Fail::Err(_)) => ev.bucket("just_too_small_capacity_err"),
+                Err(Fail::Panic(p)) => fail(&format!("C01:compile-panics-on-small-srs:{}", panic_site(&p)), json!({"panic": p, "short_by": short_by})),
+                Ok(c) => {
+                    ev.bucket("just_too_small_capacity_compiles");
+                    let mut prng = case_rng(seed ^ 0xdef, "C01.near", ci);
+                    match common::prove(&c.prover, &prog, &inputs, &[], &mut prng, PlonkVersion::V3).result {
+                        Ok((proof, pi)) => {
+                            if let Err(f) = common::verify(&c.verifier, &proof, &pi, PlonkVersion::V3) {
+                                fail(&format!("C01:honest-proof-rejected:capacity-short-by-{short_by}:{}", short(&f)), json!({"error": f.text()}));
+                            }
+                        }
+                        Err(f) => fail(&format!("C01:compiled-at-a-capacity-it-cannot-prove-with:{}", short(&f)), json!({"short_by": short_by, "degree": s_min - short_by, "error": f.text()})),
+                    }
+                }
+            }
+        }
         let pp = crate::util::pp(deg);
         // route A
         let a = match common::compile(&pp, &label, &prog) {
@@ -262,6 +285,7 @@ pub fn run(tier: Tier, seed: u64) -> i32 {
     ev.floor("verifications", ev.bucket_get("verified"), tier.pick(600, 1200));
     ev.floor("PI on last row of a full domain", ev.bucket_get("pi_on_last_row_of_full_domain"), 1);
     ev.floor("capacities", ev.set_len("capacities") as u64, 3);
+    ev.floor("capacities 1..7 below the minimal admitting one tried", ev.bucket_get("just_too_small_capacity_err") + ev.bucket_get("just_too_small_capacity_compiles"), 60);
     ev.floor("rayon pool sizes used for proving", ev.set_len("prover_pools") as u64, 12);
     ev.floor("full domains proved on a pool size that does not divide them", ev.bucket_get("full_domain_on_pool_not_dividing_it"), 6);
     ev.floor("circuits whose wire polynomials have vanishing top coefficients", ev.bucket_get("low_degree_wire_columns"), 8);
